@@ -358,4 +358,41 @@ theorem fuzzy_match_correct_ascii (cfg : Cfg) (ext : Ext) (h : List Nat) (n0 n1 
     ⟨C02_fuzzy_entry_ascii cfg ext h n0 n1 ns hpp hasc hn hlen sc is hres,
      C03_fuzzy_all_paths_ascii cfg ext h n0 n1 ns hpp hw hdl hasc hn hlen hshort sc is hres⟩⟩
 
+/-! ## one-character needles (from the one-character optimum of C04) -/
+
+theorem C03_fuzzy_one_char_ascii (cfg : Cfg) (ext : Ext) (h : List Nat) (c : Nat) (hb : 8 ≤ maxBonus cfg)
+    (hasc : ∀ x ∈ h, x < 128) (hc : normAscii cfg c = c) (hlen : 1 < h.length)
+    (sc : Nat) (is : List Nat) (hres : fuzzyMatch cfg ext .ascii .ascii h [c] = some (sc, is)) :
+    sc = alignScore cfg ext h is := by
+  unfold fuzzyMatch at hres
+  have h1 : ¬ (([c] : List Nat).length > h.length) := by simp only [List.length_singleton]; omega
+  have h2 : ¬ (([c] : List Nat).length = h.length) := by simp only [List.length_singleton]; omega
+  simp only [h1, if_false, List.isEmpty_cons, Bool.false_eq_true, h2] at hres
+  have hone := C04_one_char_optimum_ascii cfg ext h c hb hasc hc
+  rw [hres] at hone
+  simp only at hone
+  obtain ⟨_, p, rfl, _, hs, _⟩ := hone
+  exact hs.symm
+
+theorem C03_fuzzy_one_char_unicode (cfg : Cfg) (ext : Ext) (nrep : Rep) (h : List Nat) (c : Nat) (hb : 8 ≤ maxBonus cfg)
+    (hlen : 1 < h.length) (sc : Nat) (is : List Nat) (hres : fuzzyMatch cfg ext .unicode nrep h [c] = some (sc, is)) :
+    sc = alignScore cfg ext h is := by
+  unfold fuzzyMatch at hres
+  have h1 : ¬ (([c] : List Nat).length > h.length) := by simp only [List.length_singleton]; omega
+  have h2 : ¬ (([c] : List Nat).length = h.length) := by simp only [List.length_singleton]; omega
+  simp only [h1, if_false, List.isEmpty_cons, Bool.false_eq_true, h2] at hres
+  have hone := C04_one_char_optimum_unicode cfg ext h c hb
+  cases hp : prefilterNonAscii cfg h [c] true with
+  | none => rw [hp] at hres; cases hres
+  | some se =>
+    obtain ⟨start, e⟩ := se
+    rw [hp] at hres hone
+    simp only at hres hone
+    obtain ⟨_, p, hp2, _, hs, _⟩ := hone
+    have e1 := congrArg Prod.fst (Option.some.inj hres)
+    have e2 := congrArg Prod.snd (Option.some.inj hres)
+    simp only at e1 e2
+    rw [← e1, ← e2, hp2]
+    exact hs.symm
+
 end NucleoVerif
